@@ -373,7 +373,7 @@ def run(ctx):
     def cfg_key(cfg):
         return (cfg.get("map", 4), cfg["allow"], cfg["sv"], cfg["sr"], cfg["dest"], cfg.get("ncb", 0),
                 cfg.get("fault"), tuple(cfg["natural"]) if cfg.get("natural") else None,
-                tuple(sorted((cfg.get("other") or {}).items())))
+                tuple(sorted((cfg.get("other") or {}).items())), cfg.get("spell"))
 
     # ---- one case: a real save in a fresh directory --------------------------------------------------------------
     pool = {}                    # quick tier: a loaded scenario is reused while no save attempt got as far as mutating it
@@ -384,7 +384,7 @@ def run(ctx):
         seq[0] += 1
         nat = cfg.get("natural")
         pkey = (cfg.get("map", 4), cfg.get("ncb", 0))
-        poolable = ctx.quick and not ctx.replay and not nat and not cfg.get("other")
+        poolable = ctx.quick and not ctx.replay and not nat and not cfg.get("other") and not cfg.get("spell")
         scn = None
         reused = False
         if poolable and not fresh and pkey in pool:
@@ -403,6 +403,10 @@ def run(ctx):
                 f.write(base(cfg.get("map", 4)))
             with open(os.path.join(d, "bystander.txt"), "wb") as f:
                 f.write(BYSTANDER)
+            if cfg.get("spell") == "dot":
+                src = os.path.join(d, ".", "src.aoe2scenario")
+            elif cfg.get("spell") == "dslash":
+                src = d + os.sep + os.sep + "src.aoe2scenario"
             if cfg["dest"] == "same":
                 dest = src
             elif nat and nat[0] == "nodir":
@@ -649,6 +653,13 @@ def run(ctx):
             for sr in (False, True):
                 for ncb in (0, 2):
                     queue(run_case(mk(a, sv, d, sr=sr, ncb=ncb), "matrix"))
+
+        # ---- (2a'') the source named by a path that is not in normal form (`dir/./x`, `dir//x`): loaded from and saved to the
+        # SAME spelling - the guard has to recognise its own source whatever normalisation `from_file` applies to the string
+        for spell in ("dot", "dslash"):
+            for a in (False, True):
+                for sv in (False, True):
+                    queue(run_case({**mk(a, sv, "same"), "spell": spell}, "path-spelling"))
 
         # ---- (2a') the same matrix with every OTHER setting at its non-default value (one at a time) -----------------
         OTHER = [{"SHOW_VARIANT_WARNINGS": False}, {"NOTIFY_UNKNOWN_BYTES": False}, {"ALLOW_DIRTY_RETRIEVER_OVERWRITE": True},
